@@ -111,6 +111,7 @@ class SimLocale:
         for name in list(ALWAYS_INSTALLED) + list(installed):
             self.installed[locale_identity(name)] = name
         self.user_default = user_default
+        self.after_set = getattr(self, 'after_set', None)
         self.current = {cat: 'C' for cat in LC_NAMES}
         self.fail_plan = set()     # indexes (1-based) of *setting* calls that fail
         self.fail_always = False
@@ -164,6 +165,8 @@ class SimLocale:
                 self.current[c] = name
         else:
             self.current[category] = name
+        if self.after_set is not None:
+            self.after_set()        # a seam-level scheduling point: the process locale has just been switched
         return name
 
     def identity(self, category=LC_COLLATE):
@@ -445,6 +448,7 @@ class SimFS:
 class World:
     def __init__(self):
         self.locale = SimLocale()
+        self.locale.after_set = lambda: self.point('setlocale')
         self.fs = SimFS(self)
         self.locks = []
         self.sched = None
@@ -519,6 +523,17 @@ class World:
 
         real_urlopen = urllib.request.urlopen
         real_path_open = pathlib.Path.open
+        real_active_count = _threading.active_count
+
+        def active_count():
+            # the thread census of the simulated process: a thread exists from its first step to its last (the real
+            # thread objects of the scheduler are all created up front, and the scheduler itself is a thread)
+            mod = sys._getframe(1).f_globals.get('__name__', '')
+            if mod.startswith('elementpath') and w.sched is not None:
+                return max(1, len(w.sched.begun))
+            return real_active_count()
+
+        _threading.active_count = active_count
 
         def urlopen(url, *a, **k):
             mod = sys._getframe(1).f_globals.get('__name__', '')
